@@ -1,6 +1,6 @@
 SPECIFICATION Spec
 CONSTANTS FixUnprotect = TRUE  FixFragCount = TRUE  GeckoPadCheck = TRUE  TcpAddrCheck = TRUE
-  UDPLenCheck = TRUE  PunchMin = 33  FeedIdxCheck = TRUE  Mode = "all"  MaxSteps = 7
+  UDPLenCheck = TRUE  PunchMin = 33  FeedIdxCheck = TRUE  Mode = "all"  Only = ""  MaxSteps = 7
 INVARIANT NoViolation
 VIEW View
 CHECK_DEADLOCK FALSE
